@@ -87,7 +87,7 @@ def base_facts(ent: x.Ent, tkind: str, case) -> dict:
 
 def tf_facts(facts: dict, ap: x.Applied) -> dict:
     out = dict(facts)
-    out.update(parity=ap.parity, mirrors=ap.mirrors, normals_unit=ap.normals_unit, default_origin=ap.default_origin, own_origin=ap.own_origin, list_reused=ap.reused, ratio=ap.s)
+    out.update(parity=ap.parity, mirrors=ap.mirrors, normals_unit=ap.normals_unit, default_origin=ap.default_origin, own_origin=ap.own_origin, list_reused=ap.reused, list_mirrors=ap.list_mirrors, ratio=ap.s)
     return out
 
 
@@ -368,7 +368,8 @@ def check_curve(which, tkind):
                 # CircleCurve.mirror flips the normal; a Mirror in a list given to the curve itself reflects its three
                 # points only (transform() works on parts), so an odd number of those runs the wrong way round
                 cause = None
-                if which == "circle" and sum(t["k"] == "mirror" and t["via"] == "l" for t in case["tf"]) % 2:
+                # (counted as executed: a list applied twice counts twice; where the origin comes from does not matter)
+                if which == "circle" and ap.list_mirrors % 2:
                     cause = BYPASS
                 raise Violation("control-points", f"{'get_point' if k == 'pts' else 'discretize'} differs from the image of the "
                                 f"original curve by {x._maxerr(g1[k], want) if g1[k].shape == want.shape else 'shape'}",
